@@ -73,6 +73,15 @@ def run(sc):
 
 def sweep(sc):
     """bounded supplement: the REAL get_task_delay against the statement over a grid of instants and schedule times (incl. the boundaries +-1 us)"""
+    import os, time as _time
+    fails = []; n = 0
+    for host_tz in ('UTC', 'JST-9', 'EST5EDT'):          # the host's local zone must not matter (naive values mean UTC)
+        os.environ['TZ'] = host_tz; _time.tzset()
+        f2, n2 = _sweep_one(sc, host_tz); fails += f2; n += n2
+    os.environ['TZ'] = 'UTC'; _time.tzset()
+    return {'reproduced': bool(fails), 'runs': n, 'n_failures': len(fails), 'failures': fails[:400]}
+
+def _sweep_one(sc, host_tz):
     import random
     rnd = random.Random(sc.get('seed', 0)); fails = []; n = 0
     nows = [0, 1, 999999, 30 * US, 59 * US + 999999, 60 * US - 1, 45 * US + 500000, 3600 * US + 17 * US + 3] + [rnd.randrange(0, 10 ** 13) for _ in range(12)]
@@ -90,7 +99,8 @@ def sweep(sc):
                 s = {'now_us': now, 'cron': {'str': '*/5 * * * *'}, 'cron_offset': off, 'time': None, 'is_now_value': val}
                 r = run(s); n += 1
                 if r['spec_failures']: fails.append({'key': f"now={now} cron offset={off} matcher={val}", 'inputs': r['inputs'], 'result': r.get('result', r.get('raised')), 'failed_clauses': ['C13: ' + x for x in r['spec_failures']]})
-    return {'reproduced': bool(fails), 'runs': n, 'n_failures': len(fails), 'failures': fails[:8]}
+    for f_ in fails: f_['key'] += f" host TZ={host_tz}"
+    return fails, n
 
 if __name__ == '__main__':
     sc = json.load(open(sys.argv[1])) if len(sys.argv) > 1 else json.load(sys.stdin)
